@@ -92,7 +92,7 @@ NOTE = (
     "pixels, aberration values off the alphabet and soft_edges=False are not explored. Oracle (6) goes beyond the literal statement. "
     "Spelling families: 0/1-valued masks only; the optimized state is reached through the public searches with a single candidate value; "
     "'defocus' = -C10 is the one alias with a sign; for conflicting spellings in one dictionary the winner is counted in the coverage, not judged. "
-    "Continuity in the rotation angle is judged for obf / mf / parallax / icom with tolerance 5e-3 (true derivative effects reach 2.3e-4); ssb is exempt (pure-phase normalisation)."
+    "Continuity in the rotation angle is judged for obf / mf / parallax / icom with tolerance 1e-2 (true derivative effects reach 2.7e-4); ssb is exempt (pure-phase normalisation)."
 )
 RULE = (
     "Cartesian product of the alphabets in coverage.alphabet; inside each point every max_batch_size 1..num_bf(sub-mask) and None. An "
@@ -1084,12 +1084,12 @@ ROT_BOUNDARY = [
 QUARTER_TURNS = {"0": 0, "-0.0": 0, "pi/2": 1, "-pi/2": 3, "pi": 2, "-pi": 2, "3pi/2": 3, "2pi": 0, "3pi": 2}  # exact multiples of 90 degrees
 SAME_GEOMETRY = {"-0.0": "0", "2pi": "0", "-pi": "pi", "3pi": "pi", "3pi/2": "-pi/2"}  # angle -> representative mod 2 pi
 ROT_OTHER = 0.3  # construction angle of the object that receives override_rotation_angle
-TOL_ROT = 3e-5  # exact grid symmetries / equal angles mod 2pi; observed <= 1.2e-6 (perturbations of 1e-16 in cos/sin); seeded snap defect: 0.5-2
+TOL_ROT = 1e-4  # exact grid symmetries / equal angles mod 2pi; observed <= 3.6e-6 (float32 rounding of k cos + k sin with sin ~ 1e-16); seeded snap defect: 2
 # Continuity: the result at theta and at theta*(1+1e-6) differ by the true derivative times <= 9.4e-6 rad; observed on the
-# current tree <= 2.3e-4 (parallax, upsampling 3, theta = 3pi) for obf / mf / prlx / icom. ssb is NOT continuous in any
+# current tree <= 2.7e-4 (parallax, upsampling 3, theta = 3pi) for obf / mf / prlx / icom; seeded snap defect: 2. ssb is NOT continuous in any
 # parameter (it divides by |gamma|, i.e. keeps a pure phase that flips where gamma crosses zero: observed jumps up to 0.79
 # on the current tree), so for ssb continuity is recorded, not judged; ssb is judged by the exact grid symmetry instead.
-TOL_CONT = 5e-3
+TOL_CONT = 1e-2
 
 
 def quarter_turn_permutation(pix, n):
